@@ -1,0 +1,16 @@
+//go:build verif
+
+package v3
+
+// Contracts for the verification framework in /verif (comment-only file; compiled
+// only with -tags verif, where it contributes nothing but these comments).
+
+//@ // ---- C16: the distributor parameter migration stores exactly the legacy parameters, and only when the current validation
+//@ // accepts them ("migrated distributor parameters validate and describe the same shares as before") ----
+//@ func MigrateParams(ctx, storeKey, legacySubspace, cdc) (err)
+//@   modifies $kvHas, $kvVal
+//@   ensures [stored-valid] err == nil ==> $kvHas[storeOf(storeKey)][global("types.ParamsKey")]
+//@     && distParamsValid(decSnap("types.Params", $kvVal[storeOf(storeKey)][global("types.ParamsKey")]))
+//@   ensures [refused-writes-nothing] err != nil ==> kvUnchanged()
+//@   ensures kvOnlyChanged(storeOf(storeKey), global("types.ParamsKey"))
+//@   prop C16
